@@ -29,7 +29,7 @@ def neighbor_scale(ctx, I, sizes, budget):
     errs = []
     for n_rows, m in sizes:
         c = rng.randint(2, 5)
-        mode = rng.choice(["default", "groups"])
+        mode = rng.choice(["default", "groups"]) if n_rows <= 16384 else "default"          # beyond 2^14 rows: one unit per row, so that there are > 2^14 UNITS
         nprng = np.random.RandomState(rng.randrange(2 ** 31))
         X = nprng.rand(n_rows, 3)
         Xv = nprng.rand(m, 3)
@@ -307,7 +307,7 @@ def run(ctx):
     I = load_impl(ctx)
     q = ctx.tier == "quick"
     if q:
-        sizes = [(200, 20), (300, 25), (500, 30), (800, 40), (1000, 50), (2000, 50)]
+        sizes = [(200, 20), (300, 25), (500, 30), (800, 40), (1000, 50), (2000, 50), (16385 + ctx.rng.randrange(1, 5000), 12)]      # the last one: beyond 2^14 rows
     else:
         sizes = [(2000, 100), (5000, 100), (10000, 200), (20000, 300), (40000, 100), (65536, 50)]
     neighbor_scale(ctx, I, sizes, 400 if q else 2400)
